@@ -577,7 +577,6 @@ impl<'a> Lexer<'a> {
                         // Only supporting byte lists surrounded by 1 pair of quotes
                         // and surrounded by 3+ pairs of double quotes
                         // reserved 2 quotes for empty byte lists
-                        self.should_create = false;
                         true
                     } else {
                         self.start_quote_count = self.current_characters.len();
@@ -591,7 +590,7 @@ impl<'a> Lexer<'a> {
 
                 // so far the only token type that can have a null character reach push
                 // because it adds all chars, mostly indiscriminately
-                if c != '\0' {
+                if !end && c != '\0' {
                     self.current_characters.push(c);
                 }
 
